@@ -225,3 +225,21 @@ def test_canon_ignores_volatile_and_sees_changes(valid_cooler):
         f["pixels/count"][0] = 9
     assert h5ref.canon_hash(p) != a
     os.remove(p)
+
+
+def test_seamprobe_skips_on_interface_change_only():
+    from vmc.core import seamprobe
+    from vmc.core.rec import Rec
+    R = Rec()
+
+    def refactored():
+        raise TypeError("f() takes 2 positional arguments but 3 were given")
+
+    def behavioural():
+        raise ValueError("wrong answer")      # not an interface change: the leg's own oracle must judge it
+
+    assert seamprobe.internal_ok(R, "selftest:a", refactored) is False
+    assert R.caps and R.caps[0].startswith("internal interface changed")
+    assert seamprobe.internal_ok(R, "selftest:b", behavioural) is True
+    assert seamprobe.internal_ok(R, "selftest:c", lambda: None) is True
+    assert len(R.caps) == 1
